@@ -96,12 +96,19 @@ func c10Float[E float32 | float64](v *zzverif.T) {
 		slope = zzverif.Syms[E](v, "s", zzverif.Prod(sshape))
 		inputs = append(inputs, zzverif.NewTensor(slope, sshape))
 	}
+	var slopeSnap *zzverif.Snap
+	if len(inputs) == 2 {
+		slopeSnap = v.Snapshot(inputs[1])
+	}
 	r := zzRun(v, op, nil, inputs)
 	v.Assert("C10.no-panic", !r.Panicked)
 	if r.Panicked {
 		return
 	}
 	v.AssertUnchanged("C10.input-unmodified", X, snap)
+	if slopeSnap != nil {
+		v.AssertUnchanged("C10.slope-unmodified", inputs[1], slopeSnap)
+	}
 	if op == "PRelu" {
 		bs, ok := zzverif.BroadcastShape(shape, sshape)
 		if !ok || !zzverif.SameInts(bs, shape) {
@@ -197,12 +204,19 @@ func c10Int[E int8 | int16 | int32 | int64 | uint8 | uint16 | uint32 | uint64](v
 		slope = zzverif.Syms[E](v, "s", zzverif.Prod(sshape))
 		inputs = append(inputs, zzverif.NewTensor(slope, sshape))
 	}
+	var slopeSnap *zzverif.Snap
+	if len(inputs) == 2 {
+		slopeSnap = v.Snapshot(inputs[1])
+	}
 	r := zzRun(v, op, nil, inputs)
 	v.Assert("C10.no-panic", !r.Panicked)
 	if r.Panicked {
 		return
 	}
 	v.AssertUnchanged("C10.input-unmodified", X, snap)
+	if slopeSnap != nil {
+		v.AssertUnchanged("C10.slope-unmodified", inputs[1], slopeSnap)
+	}
 	if r.Err != nil {
 		return // accepted integer types may be refused
 	}
